@@ -53,6 +53,16 @@ impl DataFragSubmessage {
             let fragment_size = u16::try_read_from_bytes(&mut slice, endianness)?;
             let data_size = u32::try_read_from_bytes(&mut slice, endianness)?;
 
+            // 8.3.7.3.3 Validity: writerSN, fragmentStartingNum, fragmentsInSubmessage and
+            // fragmentSize must be positive
+            if writer_sn <= 0
+                || fragment_starting_num == 0
+                || fragments_in_submessage == 0
+                || fragment_size == 0
+            {
+                return Err(RtpsMessageError::InvalidData);
+            }
+
             let end_position = if submessage_header.submessage_length() == 0 {
                 data.len()
             } else {
